@@ -3,9 +3,18 @@ import Crem.Model.Dominance
 namespace Driver.Dominance
 open Crem.Dominance
 
-/-- `dom d x1 .. xd y1 .. yd` -> `dominates isDominatedBy dominancePresent noDominancePresent comparable` -/
+/-- `dom d x1 .. xd y1 .. yd` -> `dominates isDominatedBy dominancePresent noDominancePresent comparable`
+`cmp dx dy x1 .. xdx y1 .. ydy` -> `comparable` (vectors of unequal length: only `IsComparable` is defined there).
+Components are the integer keys of the harness's monotone float map; the harness writes negative zero as the
+token `-0` (so that a replay keeps the sign) and `String.toInt?` reads it as `0`: the identification of the two
+zeros happens here, on the Lean side. -/
 def step (line : String) : String :=
   match words line with
+  | "cmp" :: dx :: dy :: rest =>
+    match dx.toNat?, dy.toNat?, parseInts rest with
+    | some n, some m, some vs =>
+      if vs.length = n + m then boolStr (isComparable (vs.take n) (vs.drop n)) else "bad-op"
+    | _, _, _ => "bad-op"
   | "dom" :: d :: rest =>
     match d.toNat?, parseInts rest with
     | some n, some vs =>
